@@ -59,7 +59,13 @@ class Printer:
                 return "(%s %% %s)" % (a, b)
             if isinstance(e.op, ast.FloorDiv) and isinstance(e.right, ast.Constant) and isinstance(e.right.value, int) and e.right.value > 0:
                 return "(%s / %s)" % (a, b)
+            if isinstance(e.op, ast.BitAnd) and isinstance(e.right, ast.Constant) and e.right.value == 1:
+                return "(%s %% (2 : ℤ))" % a          # n & 1 == n % 2 for every int (T0 audit "int-and-1")
+            if isinstance(e.op, ast.Pow) and isinstance(e.right, ast.Constant) and isinstance(e.right.value, int) and 0 <= e.right.value <= 8:
+                return "(%s ^ %d)" % (a, e.right.value)
             raise LeanGenError("operator %s" % type(e.op).__name__)
+        if isinstance(e, ast.IfExp):
+            return "(if %s then %s else %s)" % (self.cond(e.test), self.expr(e.body), self.expr(e.orelse))
         if isinstance(e, ast.Call) and isinstance(e.func, ast.Name):
             if e.func.id == "inv" and len(e.args) == 1:
                 self.calls.add("inv")
@@ -85,6 +91,18 @@ class Printer:
 
 
 _INLINE_COUNTER = [0]
+
+
+def _cond(self, t):
+    """a test position: comparisons / and stay propositions, an int-valued test means `!= 0`"""
+    if isinstance(t, (ast.Compare,)) or (isinstance(t, ast.BoolOp) and isinstance(t.op, ast.And)):
+        return self.expr(t)
+    if isinstance(t, ast.UnaryOp) and isinstance(t.op, ast.Not):
+        return "(¬ %s)" % _cond(self, t.operand)
+    return "(%s ≠ (0 : ℤ))" % self.expr(t)
+
+
+Printer.cond = _cond
 
 
 def inline_helper(pr, call, lets):
@@ -187,7 +205,7 @@ def function_to_lean(fnode, consts, tuple_params, module=None, global_int=None):
                 and len(st.body[0].targets) == 1 and isinstance(st.body[0].targets[0], ast.Name):
             # `if c: x = e`   ==   x := if c then e else x     (conditional re-assignment of one local)
             t = st.body[0].targets[0].id
-            lets.append((lname(t), "(if %s then %s else %s)" % (pr.expr(st.test), pr.expr(st.body[0].value), lname(t))))
+            lets.append((lname(t), "(if %s then %s else %s)" % (pr.cond(st.test), pr.expr(st.body[0].value), lname(t))))
             continue
         if isinstance(st, ast.If) and len(st.body) == 1 and isinstance(st.body[0], ast.Return) \
                 and isinstance(st.body[0].value, ast.Constant) and st.body[0].value.value is True:
